@@ -87,6 +87,11 @@ def _special(item):
         elif kind == "clash_parent_child":
             a = h.Module(name="Same")
             a.p = h.Port()
+            for k in range(n):  # `n` differently named modules between the two of one name
+                mid = h.Module(name=f"Between{k}")
+                mid.p = h.Port()
+                mid.ia = a(p=mid.p)
+                a = mid
             top = h.Module(name="Same")
             top.p = h.Port()
             top.ia = a(p=top.p)
@@ -165,7 +170,7 @@ def run(ctx):
             ctx.outcome(cls + ":" + ("returned" if bad else "raised"))
             if bad:
                 ctx.violation(dict(fault=cls, reason=reason, family=fname, entries=",".join(sorted(bad))), dict(family=fam, fault=cls, site=site, design=d2), f"{bad} returned for a design that is ill-formed ({reason}) at {site}")
-    specials = [(k, n, depth, e) for k, ns in (("cycle", (1, 2, 3)), ("anon", (0, 1)), ("clash", (0,)), ("clash_parent_child", (0,)), ("clash_ext", (0, 1))) for n in ns for depth in (0, 1, 2) for e in ("elaborate", "to_proto", "netlist")]
+    specials = [(k, n, depth, e) for k, ns in (("cycle", (1, 2, 3)), ("anon", (0, 1)), ("clash", (0,)), ("clash_parent_child", (0, 1, 2)), ("clash_ext", (0, 1))) for n in ns for depth in (0, 1, 2) for e in ("elaborate", "to_proto", "netlist")]
     for sp in specials:
         r = _special(sp)
         ctx.count(states=1, transitions=2, traces_validated_against_impl=1)
